@@ -12,6 +12,23 @@ theorem fifo_chain (c : Cfg) (hc : 0 < c.maxRows) (s : St) (hr : Reachable c s)
     ∃ post, unanswered s = r.waiters ++ post :=
   worker_prefix_aux c hc s hr r b hw
 
+/-- Witness trace for the non-vacuity examples: seven accepted batches; batch 2 was rejected by the actor,
+    batches 1 and 3 are being written, 4 is in the flush channel, 5 is parked, 6 and 7 wait in the ingest channel. -/
+private def nv_busy : List Ev :=
+  [.accept ⟨1, .rows 1⟩, .start, .accept ⟨2, .bad⟩, .actorRecv 1, .actorRecv 2, .accept ⟨3, .rows 1⟩, .actorRecv 3,
+   .flushTrigger, .enqueued, .workerTake, .flushBegin, .accept ⟨4, .force⟩, .actorRecv 4, .flushTrigger, .enqueued,
+   .accept ⟨5, .force⟩, .actorRecv 5, .flushTrigger, .accept ⟨6, .rows 3⟩, .accept ⟨7, .empty⟩]
+
+/-- non-vacuity: the premises of `fifo_chain` hold for a reachable state whose worker writes a two-waiter request
+    while four more batches are queued behind it; the unanswered list starts with those two waiters -/
+example : ∃ s r b, 0 < (⟨2, 2⟩ : Cfg).maxRows ∧ Reachable ⟨2, 2⟩ s ∧ s.worker = some (r, b) ∧
+    r.waiters = [1, 3] ∧ unanswered s = [1, 3] ++ [4, 5, 6, 7] :=
+  ⟨_, _, _, by decide, ⟨nv_busy, rfl⟩, rfl, rfl, by decide⟩
+
+/-- non-vacuity: `fifo_chain` applied to that state -/
+example : ∃ s, Reachable ⟨2, 2⟩ s ∧ ∃ post, unanswered s = [1, 3] ++ post :=
+  ⟨_, ⟨nv_busy, rfl⟩, fifo_chain ⟨2, 2⟩ (by decide) _ ⟨nv_busy, rfl⟩ ⟨[1, 3], true⟩ true rfl⟩
+
 /-- **C07**: when the flush worker answers a request (with nil or with an error), every batch
     accepted before any of its waiters has been answered by the end of that step; waiters of the same
     request are answered in acceptance order. A `Flush` call is one of the waiters, so it is a barrier
@@ -21,5 +38,23 @@ theorem C07_order (c : Cfg) (hc : 0 < c.maxRows) (s s' : St) (ok : Bool) (hr : R
     ∀ r b, s.worker = some (r, b) → ∀ w ∈ r.waiters, ∀ pre post, s.accepted = pre ++ w :: post →
       ∀ a ∈ pre, a ∈ answeredIds s' :=
   flushDone_order_aux c hc s s' ok hr hs
+
+/-- non-vacuity: all premises of `C07_order` (outer and inner) hold together: in the state above the worker
+    finishes with nil, waiter 3 was accepted after batches 1 and 2 (`pre = [1, 2]`), and both are answered afterwards -/
+example : ∃ s s' r b w pre post a, 0 < (⟨2, 2⟩ : Cfg).maxRows ∧ Reachable ⟨2, 2⟩ s ∧
+    step ⟨2, 2⟩ s (.flushDone true) = some s' ∧ s.worker = some (r, b) ∧ w ∈ r.waiters ∧
+    s.accepted = pre ++ w :: post ∧ a ∈ pre ∧ pre = [1, 2] ∧ answeredIds s' = [2, 1, 3] :=
+  ⟨_, _, ⟨[1, 3], true⟩, true, 3, [1, 2], [4, 5, 6, 7], 1, by decide, ⟨nv_busy, rfl⟩, rfl, rfl, by decide, rfl,
+   by decide, rfl, rfl⟩
+
+/-- non-vacuity: `C07_order` applied to that step with an error outcome: batch 2 (answered earlier by the actor)
+    and batch 1 (answered in this step) precede waiter 3 and are answered -/
+example : ∃ s s', Reachable ⟨2, 2⟩ s ∧ step ⟨2, 2⟩ s (.flushDone false) = some s' ∧
+    1 ∈ answeredIds s' ∧ 2 ∈ answeredIds s' :=
+  ⟨_, _, ⟨nv_busy, rfl⟩, rfl,
+   C07_order ⟨2, 2⟩ (by decide) _ _ false ⟨nv_busy, rfl⟩ rfl ⟨[1, 3], true⟩ true rfl 3 (by decide) [1, 2] [4, 5, 6, 7] rfl
+     1 (by decide),
+   C07_order ⟨2, 2⟩ (by decide) _ _ false ⟨nv_busy, rfl⟩ rfl ⟨[1, 3], true⟩ true rfl 3 (by decide) [1, 2] [4, 5, 6, 7] rfl
+     2 (by decide)⟩
 
 end BloomVerif.C07
